@@ -1,4 +1,6 @@
 #!/bin/bash
-# tools/seeded_wave.sh [tier]: run, for every seeded change, the quick check of the property it was written against
-TIER="${1:-quick}"
-for d in /verif/seeded/C*; do n=$(basename $d); p=${n:0:3}; /verif/tools/mutant.sh $d/patch.diff $p -- $TIER | cut -c1-260; done
+# tools/seeded_wave.sh [tier] [parallel] [pattern]: run, for every seeded change (matching pattern), the check of the
+# property it was written against; one line per change.  parallel = number of changes examined at the same time.
+TIER="${1:-quick}"; PAR="${2:-1}"; PAT="${3:-C}"
+HERE="$(dirname "$(dirname "$(readlink -f "$0")")")"
+ls -d "$HERE"/seeded/${PAT}* | xargs -P "$PAR" -I{} bash -c 'd={}; n=$(basename $d); p=${n:0:3}; '"$HERE"'/tools/mutant.sh $d/patch.diff $p -- '"$TIER"' | cut -c1-260'
